@@ -491,6 +491,8 @@ def _defer_to_sf(cls, name):
     def op(self, other, _orig=orig):
         if isinstance(other, SF):
             return NotImplemented
+        if hasattr(other, "dtype") and hasattr(other, "item") and not is_sym(other):
+            other = other.item()          # numpy scalar
         if isinstance(other, float) and not (z3.is_real(self)):
             return getattr(SF.of(self), name)(other)
         return _orig(self, other)
